@@ -91,6 +91,8 @@ def families(eng, tier, seed):
             fams.append(make_family("retarget-%s-%d.%s.%d" % (name, ti, vi, fi), reg, sets[(ti + fi) % len(sets)], mutate=mut, dedup=multi, symbolic=False))
     # same-path families after de-duplication (C02's quantifier): every path must still resolve with the right arity
     import c03
+    for vn, segs in (("versions", ("v1", "v2")), ("versions_hdr", ("h1", "h2")), ("versions_hdr_mirror", ("h1", "h2"))):
+        fams.append(make_family("samepath-%s-dedup" % vn, strip_segment(C[vn], segs), sets[0], dedup=True, symbolic=False))
     for ename, efn in c03.edits():
         for order in (0, 1):
             r = c03.edit_family(ename, efn, order)(None)
